@@ -21,6 +21,7 @@ import (
 	"sort"
 	"strings"
 	"testing"
+	"time"
 
 	"github.com/regclient/regclient"
 	"github.com/regclient/regclient/internal/verif/audit"
@@ -31,6 +32,7 @@ import (
 	"github.com/regclient/regclient/internal/verif/qsched"
 	"github.com/regclient/regclient/internal/verif/rcenv"
 	"github.com/regclient/regclient/scheme"
+	"github.com/regclient/regclient/scheme/reg"
 	"github.com/regclient/regclient/types/manifest"
 	"github.com/regclient/regclient/types/ref"
 )
@@ -58,10 +60,20 @@ type Cfg struct {
 	Feat      string `json:"feat"`    // full, no-tag-delete, no-delete
 	TagPage   int    `json:"tag_page"`
 	Limit     int    `json:"limit"` // page limit requested by the client
+	// Cache: the client's manifest cache is on (as regctl and regsync configure it). The cache is
+	// state the raw store does not show, so these configurations are explored WITHOUT merging
+	// states, every history up to the stated length, observing after every step.
+	Cache bool `json:"cache,omitempty"`
+	Part  int  `json:"part,omitempty"` // work split of a cache configuration by first operation
+	Parts int  `json:"parts,omitempty"`
 }
 
 func (c Cfg) String() string {
-	return fmt.Sprintf("%s feat=%s page=%d limit=%d", c.Kind, c.Feat, c.TagPage, c.Limit)
+	s := fmt.Sprintf("%s feat=%s page=%d limit=%d", c.Kind, c.Feat, c.TagPage, c.Limit)
+	if c.Cache {
+		s += " cache=on"
+	}
+	return s
 }
 
 type Op struct {
@@ -82,6 +94,8 @@ func (o Op) String() string {
 		return fmt.Sprintf("manifestDelete(m%d)", o.M)
 	case "mandel-ref":
 		return fmt.Sprintf("manifestDelete(m%d,checkReferrers)", o.M)
+	case "mandel-td":
+		return fmt.Sprintf("manifestDelete(%s@m%d)", tags[o.T], o.M)
 	}
 	return o.K
 }
@@ -103,6 +117,10 @@ func alphabet() []Op {
 		ops = append(ops, Op{"mandel", m, 0})
 	}
 	ops = append(ops, Op{"mandel-ref", 0, 0})
+	// delete through a reference that carries a tag as well as the digest (the digest decides)
+	for m := range pool {
+		ops = append(ops, Op{"mandel-td", m, m % len(tags)})
+	}
 	return ops
 }
 
@@ -143,7 +161,7 @@ func (m *Model) apply(o Op) bool {
 		}
 		delete(m.Tags, tags[o.T])
 		return true
-	case "mandel", "mandel-ref":
+	case "mandel", "mandel-ref", "mandel-td":
 		if !m.Set[d] {
 			return false
 		}
@@ -244,7 +262,11 @@ func newWorld(t *testing.T, cfg Cfg, scratch string) *World {
 	if err != nil {
 		t.Fatal(err)
 	}
-	w.rc = rcenv.New(w.net, []string{host}, rcenv.Opts{})
+	ro := rcenv.Opts{}
+	if cfg.Cache {
+		ro.RegOpts = []reg.Opts{reg.WithCache(5*time.Minute, 500)}
+	}
+	w.rc = rcenv.New(w.net, []string{host}, ro)
 	return w
 }
 
@@ -331,6 +353,8 @@ func (w *World) do(ctx context.Context, o Op) error {
 		return w.rc.ManifestDelete(ctx, w.rdig(pool[o.M].Top))
 	case "mandel-ref":
 		return w.rc.ManifestDelete(ctx, w.rdig(pool[o.M].Top), regclient.WithManifestCheckReferrers())
+	case "mandel-td":
+		return w.rc.ManifestDelete(ctx, w.rtag(tags[o.T]).AddDigest(pool[o.M].Top))
 	}
 	return errors.New("unknown op")
 }
@@ -474,6 +498,28 @@ func (w *World) observe(ctx context.Context) (string, string) {
 			}
 		}
 	}
+	// head by digest, head / get through a reference with tag and digest (the digest decides)
+	for i, g := range pool {
+		for _, r := range []ref.Ref{w.rdig(g.Top), w.rtag(tags[i%len(tags)]).AddDigest(g.Top)} {
+			mh, errH := w.rc.ManifestHead(ctx, r)
+			if m.Set[g.Top] {
+				if errH == nil && mh.GetDescriptor().Digest.String() != g.Top {
+					return "manifest-wrong-digest", fmt.Sprintf("head of %s gives %s", r.CommonName(), name(mh.GetDescriptor().Digest.String()))
+				}
+			} else if errH == nil {
+				return "manifest-should-be-absent", fmt.Sprintf("manifest m%d should be gone but head of %s succeeds", i, r.CommonName())
+			}
+			if r.Tag != "" {
+				mg, errG := w.rc.ManifestGet(ctx, r)
+				if m.Set[g.Top] && errG == nil && mg.GetDescriptor().Digest.String() != g.Top {
+					return "manifest-wrong-digest", fmt.Sprintf("get of %s gives %s", r.CommonName(), name(mg.GetDescriptor().Digest.String()))
+				}
+				if !m.Set[g.Top] && errG == nil {
+					return "manifest-should-be-absent", fmt.Sprintf("manifest m%d should be gone but get of %s succeeds", i, r.CommonName())
+				}
+			}
+		}
+	}
 	// get by digest
 	for i, g := range pool {
 		mg, errG := w.rc.ManifestGet(ctx, w.rdig(g.Top))
@@ -548,7 +594,7 @@ func contains(l []string, s string) bool {
 func mayFail(cfg Cfg, o Op, w *World) bool {
 	switch cfg.Feat {
 	case "no-delete":
-		return o.K == "tagdel" || o.K == "mandel" || o.K == "mandel-ref"
+		return o.K == "tagdel" || o.K == "mandel" || o.K == "mandel-ref" || o.K == "mandel-td"
 	}
 	if w.foreignNote == "fullname" && o.K == "tagdel" {
 		return true // a foreign repo:tag entry may be refused, it must then change nothing
@@ -612,12 +658,20 @@ func runHist(t *testing.T, cfg Cfg, hist []Op, scratch string) (canon string, mo
 				if !w.model.apply(o) || err != nil {
 					w.model = before
 				}
+				if cfg.Cache {
+					// the reads of the observation fill the cache exactly as they did when this prefix
+					// was judged
+					w.observe(ctx)
+				}
 			}
 			if vk != "" {
 				break
 			}
 		}
 		canon = w.canon()
+		if cfg.Cache {
+			canon = histStr(hist) // never merged: the cache is hidden state
+		}
 		model = w.model.String()
 	})
 	if other != nil {
@@ -646,6 +700,12 @@ func configs(thorough bool) []Cfg {
 		{Kind: "dir"},
 		{Kind: "foreign-dup"}, {Kind: "foreign-untagged"}, {Kind: "foreign-fullname"}, {Kind: "foreign-nomediatype"},
 	}
+	for p := 0; p < 4; p++ {
+		cs = append(cs, Cfg{Kind: "reg", Feat: "full", Cache: true, Part: p, Parts: 4})
+	}
+	for p := 0; p < 2; p++ {
+		cs = append(cs, Cfg{Kind: "reg", Feat: "no-tag-delete", Cache: true, Part: p, Parts: 2})
+	}
 	return cs
 }
 
@@ -665,7 +725,10 @@ func bfs(t *testing.T, rec *ev.Rec, cfg Cfg, maxDepth int) {
 	for depth := 1; depth <= maxDepth && len(frontier) > 0; depth++ {
 		var next []node
 		for _, n := range frontier {
-			for _, o := range ops {
+			for oi, o := range ops {
+				if cfg.Parts > 0 && depth == 1 && oi%cfg.Parts != cfg.Part {
+					continue
+				}
 				if rec.Expired() {
 					rec.NotExhaustive("budget reached in BFS of " + cfg.String())
 					rec.States(states)
@@ -914,9 +977,9 @@ func runConc(t *testing.T, c *explore.Ctx, sc concScen, scratch string, trace bo
 func TestVerifC06(t *testing.T) {
 	rec := ev.New()
 	defer rec.Flush(t)
-	rec.Rule("part 1: per configuration (registry with/without tag-delete API / without any delete, tag-list page sizes, client page limits, regclient-written layout, five foreign layouts) breadth-first search over histories of {push m->tag (3x3), push by digest (3), tag delete (3), manifest delete (3), manifest delete with referrer check} on the real client; states deduplicated by the canonical raw store and explored to closure (or the stated depth); after every operation tag list / head / get of every tag and digest of the pool are compared with a reference map. " +
+	rec.Rule("part 1: per configuration (registry with/without tag-delete API / without any delete, tag-list page sizes, client page limits, regclient-written layout, five foreign layouts; registry with the client's manifest cache on) breadth-first search over histories of {push m->tag (3x3), push by digest (3), tag delete (3), manifest delete by digest (3), by tag+digest reference (3), with referrer check} on the real client; states deduplicated by the canonical raw store and explored to closure (or the stated depth); after every operation tag list / head / get of every tag, every digest and every tag+digest reference of the pool are compared with a reference map. " +
 		"part 2: 2-3 goroutines x 1-2 operations on colliding tags through one client, every interleaving within the pre-emption bound at request arrivals (every mutex acquisition for layouts), judged by brute-force linearizability against the reference map. distinct_nontrivial = distinct (configuration, raw state, operation) transitions and distinct concurrent outcomes")
-	rec.Assume("deduplication by raw store state is sound because the client keeps no tag state of its own (response caching stays off in C06)")
+	rec.Assume("deduplication by raw store state is sound where the client keeps no state of its own; the configurations with the manifest cache on are explored without any merging (every history of length <= 3, thorough 4, observing after every step)")
 	if rd := rec.ReplayData(); rd != nil {
 		var rp replay
 		if err := json.Unmarshal(rd, &rp); err != nil {
@@ -953,7 +1016,14 @@ func TestVerifC06(t *testing.T) {
 		if !rec.Mine(i - 1) {
 			continue
 		}
-		bfs(t, rec, cfg, depth)
+		d := depth
+		if cfg.Cache {
+			d = 3 // every history of this length, unmerged
+			if rec.Thorough() {
+				d = 4
+			}
+		}
+		bfs(t, rec, cfg, d)
 		rec.Sample(map[string]any{"config": cfg.String(), "part": "histories"})
 	}
 	// part 2
